@@ -157,7 +157,15 @@ pub fn run_direct(s: &Script, st: &mut RStats, san: bool) -> Option<Complaint> {
     };
 
     let mut result: Option<Complaint> = None;
-    'acts: for (ai, act) in s.acts.iter().enumerate() {
+    // the script, then: let the maximum latency elapse and drain every ring
+    let mut all_acts = s.acts.clone();
+    all_acts.push(RAct::Advance {
+        ns: s.cfg.lat.max().as_nanos() as u64 + 1_000,
+    });
+    for ring in 0..s.depths.len() {
+        all_acts.push(RAct::Drain { ring, max: None });
+    }
+    'acts: for (ai, act) in all_acts.iter().enumerate() {
         st.inc(&format!(
             "act:{}",
             match act {
@@ -323,42 +331,28 @@ pub fn run_direct(s: &Script, st: &mut RStats, san: bool) -> Option<Complaint> {
                     );
                     break 'acts;
                 }
-                // drain one CQE at a time so that each effect can be checked
-                // at the moment it is yielded
-                let mut yielded = 0u32;
-                let visible = real.entered(|| {
-                    let mut cq = rings[*ring].completion();
-                    cq.sync();
-                    cq.len()
-                });
+                // one CompletionQueue handle per drain: sync once, iterate
+                // (fully or up to `max`) — the patterns the property names
                 st.inc("drains");
                 if max.is_some() {
                     st.inc("drains_partial");
                 }
                 let want = max.map(|m| m as usize).unwrap_or(usize::MAX);
-                // one CompletionQueue handle for the whole drain (sync once,
-                // iterate) — the pattern the property names
-                let mut cqes: Vec<(u64, i32)> = vec![];
-                // effects happen inside next(); to check each at its own
-                // moment we step the iterator and observe in between
-                let mut cq_done = false;
-                while !cq_done && cqes.len() < want {
-                    let remaining_before = visible - cqes.len();
-                    if remaining_before == 0 {
-                        break;
+                let cqes: Vec<(u64, i32)> = real.entered(|| {
+                    let mut cq = rings[*ring].completion();
+                    cq.sync();
+                    let mut v = vec![];
+                    while v.len() < want {
+                        match cq.next() {
+                            Some(e) => v.push((e.user_data(), e.result())),
+                            None => break,
+                        }
                     }
-                    // take exactly one
-                    let one = real.entered(|| {
-                        let mut cq = rings[*ring].completion();
-                        cq.sync();
-                        cq.next().map(|e| (e.user_data(), e.result()))
-                    });
-                    let Some((ud, res)) = one else {
-                        cq_done = true;
-                        continue;
-                    };
-                    cqes.push((ud, res));
-                    yielded += 1;
+                    v
+                });
+                // judge them in the order they were yielded (= the order in
+                // which their effects were applied)
+                for (ud, res) in cqes.iter().copied() {
                     st.inc("cqes");
                     if m.dead.contains(&ud) {
                         result = fail(
@@ -462,29 +456,28 @@ pub fn run_direct(s: &Script, st: &mut RStats, san: bool) -> Option<Complaint> {
                             retire(&mut bufs, &mut retired, *target, "cancel-cqe-observed", st);
                         }
                     }
-                    // effect check at the moment of the yield: files as seen
-                    // through the std shim equal the model
-                    for fi in 0..s.nfiles {
-                        let got = real.observe(&file_path(fi));
-                        let want = m.file_content(fi).map(Obs::File).unwrap_or(Obs::Absent);
-                        if got != want {
-                            result = fail(
-                                "effect-mismatch",
-                                ai,
-                                format!(
-                                    "after CQE ud={ud} ({:?}, res {res}): {} is {}, expected {}",
-                                    inf.e.kind,
-                                    file_path(fi),
-                                    got.short(),
-                                    want.short()
-                                ),
-                            );
-                            break 'acts;
-                        }
-                    }
-                    st.inc("effect_checks");
                 }
-                let _ = yielded;
+                // effects: files as seen through the std shim equal the model
+                // (with `max = 1` this is a check after every single CQE)
+                for fi in 0..s.nfiles {
+                    let got = real.observe(&file_path(fi));
+                    let want = m.file_content(fi).map(Obs::File).unwrap_or(Obs::Absent);
+                    if got != want {
+                        result = fail(
+                            "effect-mismatch",
+                            ai,
+                            format!(
+                                "after draining {:?} on ring {ring}: {} is {}, expected {}",
+                                cqes,
+                                file_path(fi),
+                                got.short(),
+                                want.short()
+                            ),
+                        );
+                        break 'acts;
+                    }
+                }
+                st.inc("effect_checks");
                 // everything whose latest instant has passed had to be visible
                 let need = must.min(want);
                 if cqes.len() < need {
@@ -605,89 +598,18 @@ pub fn run_direct(s: &Script, st: &mut RStats, san: bool) -> Option<Complaint> {
         }
     }
 
-    // epilogue: let every latency elapse and drain everything; each
-    // outstanding entry must complete exactly once
+    // epilogue (the two final Drain acts appended above let every latency
+    // elapse and drain everything): each submitted entry must have completed
+    // exactly once by now
     if result.is_none() {
         let epi = s.acts.len();
-        for r in &mut m.rings {
-            // entries still in the SQ were never submitted: not owed a CQE
-            r.sq.clear();
-        }
-        m.now += s.cfg.lat.max().as_nanos() as u64 + 1_000;
-        sync_clock(&mut real, &m);
-        for ring in 0..rings.len() {
-            for _round in 0..2 {
-                let got: Vec<(u64, i32)> = real.entered(|| {
-                    let mut cq = rings[ring].completion();
-                    cq.sync();
-                    let mut v = vec![];
-                    for e in &mut cq {
-                        v.push((e.user_data(), e.result()));
-                    }
-                    v
-                });
-                for (ud, res) in got {
-                    st.inc("cqes");
-                    if m.dead.contains(&ud) {
-                        result = fail(
-                            "cqe-after-crash",
-                            epi,
-                            format!("ud {ud} from before the crash completed (res {res})"),
-                        );
-                        break;
-                    }
-                    let Some((inf, exp)) = m.complete(ring, ud) else {
-                        result = fail(
-                            "cqe-duplicate-or-unknown",
-                            epi,
-                            format!("final drain of ring {ring} yielded CQE ud={ud} res={res}: not outstanding"),
-                        );
-                        break;
-                    };
-                    if !exp.results.contains(&res) {
-                        // results in the final bulk drain depend on the yield
-                        // order inside the batch; only order-independent
-                        // kinds are judged here
-                        let order_free = inf.cancelled
-                            || inf.fixed.is_some()
-                            || matches!(inf.e.kind, SqKind::Write { .. } | SqKind::Fsync { .. });
-                        if order_free {
-                            result = fail(
-                                if inf.cancelled { "cancel-result" } else { "cqe-result" },
-                                epi,
-                                format!(
-                                    "final drain: ud {ud} ({:?}) completed with {res}, expected one of {:?}",
-                                    inf.e.kind, exp.results
-                                ),
-                            );
-                            break;
-                        }
-                    }
-                    if res >= 0 && !inf.cancelled && inf.fixed.is_none() {
-                        m.apply_effect(&inf);
-                        bufs.remove(&ud);
-                    } else {
-                        retire(&mut bufs, &mut retired, ud, "completed-with-error", st);
-                        if let SqKind::Cancel { target } = &inf.e.kind {
-                            if res == 0 {
-                                retire(&mut bufs, &mut retired, *target, "cancel-cqe-observed", st);
-                            }
-                        }
-                    }
-                }
-                if result.is_some() {
-                    break;
-                }
-            }
-            if result.is_some() {
-                break;
-            }
+        for ring in 0..m.rings.len() {
             if let Some(i) = m.rings[ring].inflight.values().next() {
                 result = fail(
                     "cqe-missing",
                     epi,
                     format!(
-                        "ud {} ({:?}) submitted at {} ns never completed (final drain at {} ns)",
+                        "ud {} ({:?}) submitted on ring {ring} at {} ns never completed (final drain at {} ns)",
                         i.e.ud, i.e.kind, i.submit_ns, m.now
                     ),
                 );
